@@ -16,3 +16,6 @@ CHECKS["C10"] = c10_check.run
 
 import c06_check
 CHECKS["C06"] = c06_check.run
+
+import c07_check
+CHECKS["C07"] = c07_check.run
